@@ -33,7 +33,7 @@ class Entry:
     def __init__(self, kind, transfer, k):
         self.kind, self.transfer, self.k = kind, transfer, k
         self.coro = None
-        self.started = self.ended = self.delivered = self.cancelled = False
+        self.started = self.ended = self.delivered = self.cancelled = self.failed = False
 
 
 class Driver:
@@ -53,6 +53,9 @@ class Driver:
         self.viol = []          # (key, text)
         self.flight = {}        # transfer index -> worst (nRQ, nTR) seen, untracked seen
         self.nomodel = False
+        self.answered = set()
+        self.fup = {}           # upload index -> file endpoint waiting for the offset / the end
+        self.file_eps = set()
         # really shared files, so that uploads are created the way a peer creates them (PeerTransferQueue)
         import os
         sm = tw.w.client.shares
@@ -107,6 +110,8 @@ class Driver:
                             if kind == 'RQ':
                                 if not e.delivered:
                                     drv.note('connfail', transfer, e.k)
+                            elif e.failed:
+                                drv.note('end', transfer, e.k)       # the state change was logged when it happened
                             else:
                                 drv.note({'QUEUED': 'connfail', 'INCOMPLETE': 'interrupt'}.get(transfer.state.VALUE.name, 'finish'), transfer, e.k)
                 e.coro = body()
@@ -167,10 +172,14 @@ class Driver:
 
         class L:
             async def on_transfer_state_changed(self, transfer, old, new):
+                e = drv._entry_of_current()
+                if e is None or e.transfer is not transfer:
+                    return
                 if new.name in ('DOWNLOADING', 'UPLOADING'):
-                    e = drv._entry_of_current()
-                    if e is not None and e.transfer is transfer:
-                        drv.note('begin', transfer, e.k)
+                    drv.note('begin', transfer, e.k)
+                elif new.name == 'FAILED' and e.kind == 'TR' and old.name in ('INITIALIZING', 'DOWNLOADING', 'UPLOADING'):
+                    e.failed = True
+                    drv.note('fail', transfer, e.k)
         t.state_listeners.append(L())
 
     def note(self, what, transfer, k):
@@ -231,7 +240,7 @@ class Driver:
                 elif ti == i and what == 'peermsg':
                     evs.append('PeerMsg')
                 elif ti == i and k is not None:
-                    evs.append({'start': 'Start', 'begin': 'Begin', 'interrupt': 'Interrupt', 'deliver': 'Deliver', 'connfail': 'ConnFail', 'finish': 'Finish',
+                    evs.append({'start': 'Start', 'begin': 'Begin', 'interrupt': 'Interrupt', 'fail': 'Fail', 'end': 'End_', 'deliver': 'Deliver', 'connfail': 'ConnFail', 'finish': 'Finish',
                                 'donecb': 'DoneCb'}[what] + f' {k}')
             self.cursor[i] = len(self.log)
             self.check_flight(t)
@@ -324,6 +333,59 @@ class Driver:
                 self._fend(k, how)
         elif kind == 'FEnd':
             self._fend(op[1], op[2])
+        elif kind == 'ReplyOK':  # the peer accepts the upload request of transfer k; we open the file connection
+            k = op[1]
+            if k < len(self.ts) and self.ts[k].is_upload() and self.ts[k].state.VALUE.name == 'INITIALIZING':
+                from aioslsk.protocol.messages import PeerTransferReply, PeerTransferRequest
+                t = self.ts[k]
+                reqs = [m for u, m in tw.peer_frames(t.username) if isinstance(m, PeerTransferRequest.Request) and m.filename == t.remote_path]
+                ep = tw.peer_ep(t.username)
+                if reqs and ep is not None and reqs[-1].ticket not in self.answered:
+                    self.answered.add(reqs[-1].ticket)
+                    n0 = len(tw.eps)
+                    ep.feed(PeerTransferReply.Request(reqs[-1].ticket, True).serialize())
+                    tw.settle(150)
+                    if len(tw.eps) > n0:
+                        self.fup[k] = tw.eps[-1][1]
+                        self.file_eps.add(id(tw.eps[-1][1]))
+        elif kind == 'FOff':     # the peer sends the offset on the file connection of upload k; 'err': our writes then fail
+            k, how = op[1], op[2]
+            fe = self.fup.get(k)
+            if fe is not None and k < len(self.ts) and self.ts[k].state.VALUE.name == 'INITIALIZING':
+                from aioslsk.protocol.primitives import uint64
+                if how == 'err':
+                    fe.write_error = ConnectionResetError('reset by peer')
+                fe.feed(uint64(0).serialize())
+                tw.settle(150)
+                if how == 'err':
+                    self.fup.pop(k, None)
+        elif kind == 'FEof':     # the peer closes the file connection of upload k (after receiving the file)
+            fe = self.fup.pop(op[1], None)
+            if fe is not None:
+                fe.feed_eof()
+                tw.settle(150)
+        elif kind == 'DropP':    # the peer closes its message connections (file connections stay)
+            for u, ep in tw.eps:
+                if u == f'u{op[1]}' and not ep.remote_closed and id(ep) not in self.file_eps:
+                    ep.feed_eof()
+            tw.settle(100)
+        elif kind == 'PQ':       # the peer repeats its PeerTransferQueue request for upload k (clients do so periodically)
+            k = op[1]
+            if k < len(self.ts) and self.ts[k].is_upload() and self.ts[k] in tw.tm.transfers:
+                from aioslsk.protocol.messages import PeerTransferQueue
+                t = self.ts[k]
+                if t.state.VALUE.name in ('FAILED', 'COMPLETE'):      # a legitimate re-queue by the peer
+                    for m in self.markers:
+                        if m['k'] == k and m['end'] is None:
+                            m['end'] = (len(tw.wlog), self.fields(t), self.nconnects(t.username))
+                        if self.ts[m['k']].username == t.username:
+                            m['alone'] = False
+                ue[k] = ['PeerMsg']
+                ep = tw.incoming_peer(t.username)
+                tw.settle(30)
+                ep.feed(PeerTransferQueue.Request(t.remote_path).serialize())
+                ep.feed_eof()
+                tw.settle(100)
         elif kind == 'Blk':      # the user blocks / unblocks uploads to peer u (the user manager notices within 1 s)
             u = f'u{op[1]}'
             ups = [x for x in self.ts if x.is_upload() and x.username == u and x in tw.tm.transfers]
@@ -575,12 +637,47 @@ def gen_block_ops(rng):
     return ops
 
 
+def gen_upload_ops(rng):
+    """An upload driven into the file phase; write errors; the peer's message connection gone or slow while
+    we still have to tell it; the peer repeating its queue request; stops at every point."""
+    u = rng.randrange(0, 2)
+    ops = [['U', u], ['T', 0.3]]
+    extra = lambda: rng.choice([['T', rng.choice([0.0, 0.06, 0.3, 1.0])], ['Poke'], [rng.choice(['A', 'P', 'X']), 0], ['RQ', 0],
+                                ['PQ', 0], ['PQ', 0], ['DropP', u], ['Mode', u, rng.choice(['slow', 'hang', 'ok'])],
+                                ['Rel', u, rng.random() < 0.5]])
+    def maybe(p=0.25):
+        while rng.random() < p:
+            ops.append(extra())
+    maybe()
+    if rng.random() < 0.8:
+        ops.append(['ReplyOK', 0])
+        maybe()
+        if rng.random() < 0.7:
+            ops += [['DropP', u], rng.choice([['Mode', u, 'slow'], ['Mode', u, 'hang'], ['Addr', u, 'hold']])]
+        how = rng.choice(['err', 'err', 'ok'])
+        ops.append(['FOff', 0, how])
+        if how == 'ok' and rng.random() < 0.6:
+            ops.append(['FEof', 0])
+    else:
+        ops.append(rng.choice([['P', 0], ['A', 0], ['Reply', 0]]))
+    maybe(0.4)
+    ops.append(rng.choice([['X', 0], ['PQ', 0], ['P', 0], ['A', 0]]))
+    if ops[-1][0] == 'PQ':
+        ops += [['T', rng.choice([0.0, 0.3])], [rng.choice(['A', 'P', 'X']), 0]]
+    else:
+        ops += [['PQ', 0], ['T', 0.3]]
+    maybe(0.3)
+    return ops
+
+
 def gen_ops(rng):
     r0 = rng.random()
-    if r0 < 0.25:
+    if r0 < 0.22:
         return gen_peer_ops(rng)
-    if r0 < 0.33:
+    if r0 < 0.30:
         return gen_block_ops(rng)
+    if r0 < 0.48:
+        return gen_upload_ops(rng)
     ops = []
     nt = 0
     style = rng.choice(['dl', 'dl', 'ul', 'mix'])
